@@ -66,7 +66,9 @@ func (g *G) Sep() string {
 var words = []string{"+5", "+", "a+b", "a", "abc", "x1", "foo-bar", "é", "日本", "a.b", "urn:x", "10", "-1", "k=v", "p:q", "*", "a/b", "[1]", "(x)", "$", "~",
 	// RFC 6020 6.1.3 lets an unquoted string hold an apostrophe (only blanks, ";", "{", "}" and comment openers force
 	// quoting); it must not come first, where it would open a single-quoted string
-	"o'clock", "x'", "a''b", "k='v'"}
+	"o'clock", "x'", "a''b", "k='v'",
+	// blanks other than space, tab and line breaks are ordinary characters of an unquoted string
+	"ACME\u00a0Net", "a\u3000b", "x\u00a0", "\u00a0y", "v\vw", "f\ff", "l\u2028s", "n\u0085l", "\u202f"}
 
 // UnquotedArg: no blanks, no ; { } quotes, does not start with '+' or a comment opener.
 func (g *G) UnquotedArg() string {
